@@ -358,3 +358,132 @@ Fixpoint dcheck (cs : list dcase) : list (N * nat * dobs) :=
       | Some (i, m) => (id, i, m) :: dcheck t
       end
   end.
+
+(** * Finer steps: VolumeManager.RemoveSector cut at its committed steps, vm.mu explicit
+
+   host/storage/storage.go, RemoveSector:
+
+       vm.mu.Lock(); defer vm.mu.Unlock()
+       loc := vs.SectorLocation(root)          XRsLocate r     (refreshes the last access; an error returns)
+       vs.RemoveSector(root)                   XRsCommit       (the slot is free in the database from here on)
+       vol := vm.volumes[loc.Volume]
+       vol.WriteSector(&zeroes, loc.Index)     XRsZero ok      (zeroes at the location read by the FIRST call)
+       vol.Sync(); vm.cache.Remove(root)       XRsEnd ok       (fsync; cache drop; return releases vm.mu)
+
+   and every other step of the volume manager may happen in between — except the ones that need
+   vm.mu themselves ([takes_mu]): the StoreFunc of a writer locks vm.mu (volume lookup) before it
+   writes its data, so [DWrite] is not enabled while a RemoveSector holds the mutex.  That is
+   the fact the proof needs: the slot released by XRsCommit can be handed to a writer at once
+   (DReserve is a store call, it does not take vm.mu), but that writer's bytes land after the
+   zeroes.  Also disabled: Sync and its pieces (they lock vm.mu for the snapshot, every lookup
+   and every flag deletion), a cache-miss ReadSector and migrateSector (readLocation locks vm.mu),
+   another RemoveSector, Close (waits for the thread group).  A disabled step leaves the state
+   alone and answers [ODBad]: an implementation that takes it anyway does not correspond.
+   NOT modelled as a hazard: MigrateSectors calls migrateSector inside a store transaction, and
+   the store has one connection; a RemoveSector (or ResizeVolume) that holds vm.mu and then asks
+   for the connection while a migration callback waits for vm.mu never returns.  That schedule
+   is a deadlock of the code (liveness), here it is simply "not enabled".
+   [lock = false] is the variant without the critical section (vm.mu taken for the map lookup
+   only): nothing is disabled.  [xlost] is a ghost: the roots an operator deleted explicitly. *)
+Inductive rsphase := RsLocated | RsCommitted | RsZeroed.
+
+Record xstate := {
+  xd : dstate;
+  xmu : option (N * (N * N) * rsphase);   (* the RemoveSector holding vm.mu: root, location read, phase *)
+  xlost : list N }.
+
+Definition xinit (size : N) : xstate := {| xd := dinit size; xmu := None; xlost := [] |}.
+
+Inductive xop :=
+| XD (o : dop)
+| XRsLocate (r : N)
+| XRsCommit
+| XRsZero (ok : bool)     (* ok = false: the write of the zeroes fails *)
+| XRsEnd (ok : bool)      (* ok = false: the fsync fails *)
+| XRsAbort.               (* returns after SectorLocation without touching anything (not a path of the code as it is;
+                             fixes/C02-remove-sector-in-flight.patch: an upload of the sector is in flight) *)
+
+Definition takes_mu (o : dop) (d : dstate) : bool :=
+  match o with
+  | DWrite _ _ | DSync | DSyncBegin _ | DFsync _ _ _ | DClear _ | DRemoveSector _ | DRestart => true
+  | DRead r _ => is_none (cget r (cache d)) && is_some (locate r (md d))
+  | DMigrate _ _ calls => match calls with [] => false | _ => true end
+  | _ => false
+  end.
+
+Definition is_ok (b : dobs) : bool :=
+  match b with OM (ORes (Ok _)) => true | _ => false end.
+
+Definition xstep_gen (lock : bool) (x : xstate) (o : xop) : xstate * dobs :=
+  let d := xd x in
+  match o with
+  | XD DCrash => ({| xd := dcrash d; xmu := None; xlost := xlost x |}, OM (ORes (Ok tt)))
+  | XD o' =>
+      if lock && is_some (xmu x) && takes_mu o' d then (x, ODBad)
+      else let '(d', b) := dstep d o' in
+           ({| xd := d'; xmu := xmu x;
+               xlost := match o' with DRemoveSector r => if is_ok b then r :: xlost x else xlost x | _ => xlost x end |}, b)
+  | XRsLocate r =>
+      match xmu x with
+      | Some _ => (x, ODBad)
+      | None =>
+          match locate r (md d) with
+          | None => (x, OM (ORes (Err ENotFound)))
+          | Some loc => ({| xd := touch r d; xmu := Some (r, loc, RsLocated); xlost := xlost x |}, OM (OLoc (Some loc)))
+          end
+      end
+  | XRsCommit =>
+      match xmu x with
+      | Some (r, loc, RsLocated) =>
+          match remove_sector r (md d) with
+          | Ok m => ({| xd := touch r (with_md d m); xmu := Some (r, loc, RsCommitted); xlost := r :: xlost x |}, OM (ORes (Ok tt)))
+          | Err e => ({| xd := d; xmu := None; xlost := xlost x |}, OM (ORes (Err e)))
+          | Panic => ({| xd := d; xmu := None; xlost := xlost x |}, OM (ORes Panic))
+          end
+      | _ => (x, ODBad)
+      end
+  | XRsZero ok =>
+      match xmu x with
+      | Some (r, (v, i), RsCommitted) =>
+          if ok && is_some (vget v (vols (md d))) then
+            ({| xd := with_files d (disk d) (kset v i 0%N (pend d)); xmu := Some (r, (v, i), RsZeroed); xlost := xlost x |},
+             OM (ORes (Ok tt)))
+          else ({| xd := d; xmu := None; xlost := xlost x |}, OM (ORes (Err EOther)))
+      | _ => (x, ODBad)
+      end
+  | XRsEnd ok =>
+      match xmu x with
+      | Some (r, (v, i), RsZeroed) =>
+          if ok then ({| xd := with_cache (sync_vol v d) (cdel r (cache d)); xmu := None; xlost := xlost x |}, OM (ORes (Ok tt)))
+          else ({| xd := d; xmu := None; xlost := xlost x |}, OM (ORes (Err EOther)))
+      | _ => (x, ODBad)
+      end
+  | XRsAbort =>
+      match xmu x with
+      | Some (_, _, RsLocated) => ({| xd := d; xmu := None; xlost := xlost x |}, OM (ORes (Err EOther)))
+      | _ => (x, ODBad)
+      end
+  end.
+
+Definition xstep := xstep_gen true.
+
+(** * Correspondence entry point for runs recorded at this granularity *)
+Definition xcase := (N * N * list (xop * dobs))%type.   (* id, cache size, steps *)
+
+Fixpoint xfirst_mismatch (x : xstate) (i : nat) (l : list (xop * dobs)) : option (nat * dobs) :=
+  match l with
+  | [] => None
+  | (o, seen) :: t =>
+      let '(x', m) := xstep x o in
+      if dobs_eqb m seen then xfirst_mismatch x' (S i) t else Some (i, m)
+  end.
+
+Fixpoint xcheck (cs : list xcase) : list (N * nat * dobs) :=
+  match cs with
+  | [] => []
+  | (id, size, l) :: t =>
+      match xfirst_mismatch (xinit size) 0 l with
+      | None => xcheck t
+      | Some (i, m) => (id, i, m) :: xcheck t
+      end
+  end.
